@@ -8,6 +8,8 @@
 use std::cell::RefCell;
 use std::fmt;
 use std::marker::PhantomData;
+use std::rc::Rc;
+use std::sync::Arc;
 
 /// What the harness tells the stand-in to do, and what the stand-in observed.
 pub mod control {
@@ -48,19 +50,21 @@ pub mod control {
         pub coin_identity: u64,
         pub coin_shuffle: u64,
         pub coin_yield: u64,
+        pub inline_calls: u64,
+        pub coin_caller_participates: u64,
     }
 
     #[derive(Default)]
     pub(crate) struct State {
         pub plan: Plan,
         pub stats: Stats,
-        pub pool: usize,
+        pub pool: Option<Rc<PoolInner>>,
     }
 
     thread_local! { pub(crate) static STATE: RefCell<State> = RefCell::new(State::default()); }
 
     pub fn begin(plan: Plan) {
-        STATE.with(|s| *s.borrow_mut() = State { plan, stats: Stats::default(), pool: 0 })
+        STATE.with(|s| *s.borrow_mut() = State { plan, stats: Stats::default(), pool: None })
     }
 
     pub fn end() -> Stats {
@@ -109,15 +113,134 @@ impl ThreadPoolBuilder {
                 s.stats.build_failures_too_many += 1;
                 Err(ThreadPoolBuildError("cannot spawn that many threads"))
             } else {
-                Ok(ThreadPool { n: self.n.max(1) })
+                Ok(ThreadPool { inner: Rc::new(PoolInner::new(self.n.max(1))) })
             }
         })
     }
 }
 
-#[derive(Debug)]
+type ErasedJob = &'static (dyn Fn() + Sync);
+
+struct St {
+    gen: u64,
+    job: Option<ErasedJob>,
+    slots_left: usize,
+    finished: usize,
+    shutdown: bool,
+}
+
+struct Shared {
+    m: shuttle::sync::Mutex<St>,
+    work: shuttle::sync::Condvar,
+    done: shuttle::sync::Condvar,
+}
+
+/// Persistent simulated workers (spawned lazily, reused by every parallel call of the pool,
+/// joined when the pool is dropped) — as in rayon, and it keeps the number of simulated
+/// threads per execution at <= K instead of one batch of threads per parallel call.
+pub(crate) struct PoolInner {
+    k: usize,
+    shared: Arc<Shared>,
+    handles: RefCell<Vec<shuttle::thread::JoinHandle<()>>>,
+}
+
+fn worker(shared: Arc<Shared>) {
+    let mut last_gen = 0u64;
+    loop {
+        let mut st = shared.m.lock().unwrap();
+        loop {
+            if st.shutdown {
+                return;
+            }
+            if st.job.is_some() && st.slots_left > 0 && st.gen != last_gen {
+                break;
+            }
+            st = shared.work.wait(st).unwrap();
+        }
+        st.slots_left -= 1;
+        last_gen = st.gen;
+        let job = st.job.unwrap();
+        drop(st);
+        job();
+        let mut st = shared.m.lock().unwrap();
+        st.finished += 1;
+        shared.done.notify_all();
+        drop(st);
+    }
+}
+
+impl PoolInner {
+    fn new(k: usize) -> Self {
+        PoolInner {
+            k,
+            shared: Arc::new(Shared {
+                m: shuttle::sync::Mutex::new(St { gen: 0, job: None, slots_left: 0, finished: 0, shutdown: false }),
+                work: shuttle::sync::Condvar::new(),
+                done: shuttle::sync::Condvar::new(),
+            }),
+            handles: RefCell::new(Vec::new()),
+        }
+    }
+
+    fn ensure_workers(&self, n: usize) {
+        let mut h = self.handles.borrow_mut();
+        while h.len() < n {
+            let shared = self.shared.clone();
+            h.push(shuttle::thread::spawn(move || worker(shared)));
+            STATE.with(|s| s.borrow_mut().stats.workers_spawned += 1);
+        }
+    }
+
+    /// run `job` on `n` pool workers (plus the caller if `caller_too`), return when all are done
+    fn run_batch(&self, job: &(dyn Fn() + Sync), n: usize, caller_too: bool) {
+        self.ensure_workers(n);
+        // SAFETY: the reference is only used by workers between the two critical sections
+        // below; this function does not return before every participating worker has
+        // reported `finished`, so the borrow outlives every use.
+        let erased: ErasedJob = unsafe { std::mem::transmute::<&(dyn Fn() + Sync), ErasedJob>(job) };
+        {
+            let mut st = self.shared.m.lock().unwrap();
+            st.gen += 1;
+            st.job = Some(erased);
+            st.slots_left = n;
+            st.finished = 0;
+            self.shared.work.notify_all();
+        }
+        if caller_too {
+            job();
+        }
+        let mut st = self.shared.m.lock().unwrap();
+        while st.finished < n {
+            st = self.shared.done.wait(st).unwrap();
+        }
+        st.job = None;
+    }
+}
+
+impl Drop for PoolInner {
+    fn drop(&mut self) {
+        if std::thread::panicking() {
+            return;
+        }
+        {
+            let mut st = self.shared.m.lock().unwrap();
+            st.shutdown = true;
+            self.shared.work.notify_all();
+        }
+        for h in self.handles.borrow_mut().drain(..) {
+            let _ = h.join();
+        }
+    }
+}
+
 pub struct ThreadPool {
-    n: usize,
+    inner: Rc<PoolInner>,
+}
+
+impl fmt::Debug for ThreadPool {
+    fn fmt(&self, f: &mut fmt::Formatter<'_>) -> fmt::Result {
+        write!(f, "ThreadPool({})", self.inner.k)
+    }
 }
 
 pub struct Scope<'scope>(PhantomData<&'scope ()>);
@@ -128,7 +251,7 @@ impl ThreadPool {
         OP: FnOnce(&Scope<'scope>) -> R + Send,
         R: Send,
     {
-        let old = STATE.with(|s| std::mem::replace(&mut s.borrow_mut().pool, self.n));
+        let old = STATE.with(|s| s.borrow_mut().pool.replace(self.inner.clone()));
         let r = op(&Scope(PhantomData));
         STATE.with(|s| s.borrow_mut().pool = old);
         r
@@ -143,14 +266,16 @@ fn coin(n: u64) -> u64 {
 /// Run `f` over `items` on simulated workers; returns per-worker result chunks.
 fn par_map<T: Send, R: Send>(mut items: Vec<T>, f: &(impl Fn(T) -> R + Sync)) -> Vec<Vec<R>> {
     use shuttle::sync::Mutex;
-    let (k, buggify) = STATE.with(|s| {
+    let (pool, buggify) = STATE.with(|s| {
         let s = s.borrow();
-        (s.pool.max(1), s.plan.buggify)
+        (s.pool.clone(), s.plan.buggify)
     });
+    let k = pool.as_ref().map(|p| p.k).unwrap_or(1);
     let n = items.len();
     let max_w = k.min(n.max(1));
     let mut workers = max_w;
     let mut yields = false;
+    let mut caller_too = false;
     if buggify {
         // worker count
         match coin(4) {
@@ -183,49 +308,57 @@ fn par_map<T: Send, R: Send>(mut items: Vec<T>, f: &(impl Fn(T) -> R + Sync)) ->
         if yields {
             STATE.with(|s| s.borrow_mut().stats.coin_yield += 1);
         }
+        caller_too = coin(2) == 0;
     }
     STATE.with(|s| {
         let mut s = s.borrow_mut();
         s.stats.par_calls += 1;
         s.stats.par_items += n as u64;
-        s.stats.workers_spawned += workers as u64;
         s.stats.max_workers = s.stats.max_workers.max(workers);
         if n < k {
             s.stats.calls_with_fewer_items_than_workers += 1;
         }
     });
+    let pool = match pool {
+        Some(p) if workers > 1 => p,
+        _ => {
+            // the calling thread does all the work itself (rayon's caller participates)
+            STATE.with(|s| s.borrow_mut().stats.inline_calls += 1);
+            let mut out = Vec::with_capacity(n);
+            for it in items {
+                if yields {
+                    shuttle::thread::sleep(std::time::Duration::from_nanos(0));
+                }
+                out.push(f(it));
+            }
+            return vec![out];
+        }
+    };
     let queue = Mutex::new(items.into_iter());
-    let mut outs: Vec<Vec<R>> = Vec::with_capacity(workers);
-    shuttle::thread::scope(|s| {
-        let handles: Vec<_> = (0..workers)
-            .map(|_| {
-                let queue = &queue;
-                s.spawn(move || {
-                    let mut out = Vec::new();
-                    loop {
-                        let item = queue.lock().unwrap().next();
-                        match item {
-                            Some(it) => {
-                                if yields {
-                                    shuttle::thread::sleep(std::time::Duration::from_nanos(0));
-                                }
-                                out.push(f(it));
-                            }
-                            None => break,
-                        }
+    let outs: Mutex<Vec<Vec<R>>> = Mutex::new(Vec::with_capacity(workers));
+    let job = || {
+        let mut out = Vec::new();
+        loop {
+            let item = queue.lock().unwrap().next();
+            match item {
+                Some(it) => {
+                    if yields {
+                        shuttle::thread::sleep(std::time::Duration::from_nanos(0));
                     }
-                    out
-                })
-            })
-            .collect();
-        for h in handles {
-            match h.join() {
-                Ok(v) => outs.push(v),
-                Err(e) => std::panic::resume_unwind(e),
+                    out.push(f(it));
+                }
+                None => break,
             }
         }
-    });
-    outs
+        outs.lock().unwrap().push(out);
+    };
+    if caller_too {
+        STATE.with(|s| s.borrow_mut().stats.coin_caller_participates += 1);
+        pool.run_batch(&job, workers - 1, true);
+    } else {
+        pool.run_batch(&job, workers, false);
+    }
+    outs.into_inner().unwrap()
 }
 
 pub mod iter {
